@@ -8,6 +8,8 @@ CFG = dict(
         "table_shapes", "table_rows_wellformed", "table_caseIndex", "table_edges_are_lattice_edges",
         "table_edges_cross", "table_nondegenerate", "table_no_duplicate_edge", "table_interior_balanced",
         "table_canon_empty", "table_face_canonical", "table_cell_flow", "table_face_consistent",
+        # gluing: arbitrary box, arbitrary sign pattern, boundary layer outside
+        "march_closed_balanced",
     ],
     streams=[dict(name="c09", n=dict(quick=8, thorough=120), timeout=dict(quick=600, thorough=3600))],
     trusted=T_COMMON + [
